@@ -3,7 +3,8 @@ from plib import *
 from props.builder import Prog
 from props.common import ProgRunner
 
-LEAN_TARGETS = ["Plonk.Props.C08"]
+EXTRA_AUDITS = ["ComposerTie"]
+LEAN_TARGETS = ["Plonk.Props.C08", "Plonk.Props.ComposerTie"]
 ASSUMPTIONS = ["dusk-bls12_381 scalar arithmetic behaves as F_r (modelled, exercised differentially)",
                "Fiat-Shamir challenges avoid the explicit bad-challenge sets (random-oracle assumption), "
                "so 'prover succeeds' coincides with 'every row identity holds'"]
